@@ -69,7 +69,7 @@ const (
 	miscCore = 12
 )
 
-func trafficFamilies() (ip, dom, misc, mix []vroute.Rule) {
+func trafficFamilies() (ip, dom, misc, mix, emp []vroute.Rule) {
 	ip = []vroute.Rule{
 		rule("g1", cond("dip", vals("10.0.0.1"))),
 		rule("g1", cond("dip", vals("10.0.0.2"))),
@@ -145,6 +145,20 @@ func trafficFamilies() (ip, dom, misc, mix []vroute.Rule) {
 		rule("g1", cond("ipversion", vals("4"))),
 		rule("g1", cond("dscp", vals("4", "0x4", "8"))),
 	}
+	// conditions whose value list is empty after expansion, with the neighbours they interact with
+	emp = []vroute.Rule{
+		rule("g1", cond("domain", kvs("geosite", "tiny@nomatch"))),
+		rule("g1", ncond("domain", kvs("geosite", "tiny@nomatch"))),
+		rule("g2", cond("domain", kvs("geosite", "tiny@nomatch")), cond("dport", vals("80"))),
+		rule("g2", cond("dport", vals("80")), cond("sip", kvs("geoip", "empty"))),
+		rule("g2", ncond("dip", kvs("geoip", "empty")), cond("dport", vals("80"))),
+		rule("g1", cond("dip", kvs("geoip", "empty"))),
+		rule("g1", cond("domain", kvs("suffix", "example.com"))),
+		rule("g1", cond("dip", vals("10.0.0.1"))),
+		rule("g1", cond("dport", vals("80"))),
+		rule("must_rules", cond("dport", vals("80"))),
+		rule("g1", cond("dport", vals("443"))),
+	}
 	mix = []vroute.Rule{
 		ip[0], ip[2], ip[3], ip[12], ip[23],
 		dom[0], dom[6], dom[9], dom[10],
@@ -178,10 +192,21 @@ func ruleTexts(rs []vroute.Rule) []string {
 // expandTraffic: the list as written with every geodata reference replaced by the values the harness wrote
 // into the data files (that IS the meaning of `geosite:tiny` / `geoip:tiny`).
 func expandTraffic(p *vroute.Program) (*vroute.Program, bool) {
-	any := false
-	q := &vroute.Program{Tier: p.Tier, Label: p.Label, Fallback: p.Fallback}
+	q, any, _, _ := expandTrafficX(p)
+	return q, any
+}
+
+// expandTrafficX additionally folds conditions whose value list is EMPTY after expansion (geosite:tiny@nomatch,
+// geoip:empty): the empty set contains nothing, so f() is never true and !f() is always true. A rule with a
+// never-true condition can never fire and is left out; an always-true condition is left out of its rule; a
+// rule whose conditions are all always-true fires for every packet and is written with the tautology
+// l4proto(tcp, udp) (every packet of the model is tcp or udp). hasEmpty: some condition was empty;
+// unconditional: some rule fires for every packet after expansion.
+func expandTrafficX(p *vroute.Program) (q *vroute.Program, any, hasEmpty, unconditional bool) {
+	q = &vroute.Program{Tier: p.Tier, Label: p.Label, Fallback: p.Fallback}
 	for _, r := range p.Rules {
 		nr := vroute.Rule{Out: r.Out}
+		never := false
 		for _, c := range r.Conds {
 			in := make([]kv, len(c.Params))
 			for i, x := range c.Params {
@@ -189,15 +214,29 @@ func expandTraffic(p *vroute.Program) (*vroute.Program, bool) {
 			}
 			out, exp := expandGeo(c.Func == "domain", in)
 			any = any || exp
+			if len(out) == 0 {
+				hasEmpty = true
+				if !c.Not {
+					never = true
+				}
+				continue
+			}
 			nc := vroute.Cond{Func: c.Func, Not: c.Not}
 			for _, x := range out {
 				nc.Params = append(nc.Params, vroute.Param{Key: x.Key, Val: x.Val})
 			}
 			nr.Conds = append(nr.Conds, nc)
 		}
+		if never {
+			continue
+		}
+		if len(nr.Conds) == 0 {
+			unconditional = true
+			nr.Conds = []vroute.Cond{{Func: "l4proto", Params: vals("tcp", "udp")}}
+		}
 		q.Rules = append(q.Rules, nr)
 	}
-	return q, any
+	return
 }
 
 func canonFunc(f string) string {
@@ -329,7 +368,7 @@ type trafficLeg struct {
 	merged, deduped, geo, reordered, byRule *atomic.Int64
 	negMergeable                            *atomic.Int64
 	outcomes                                hist
-	dupSkipped                              *atomic.Int64
+	dupSkipped, emptyExp, rejected          *atomic.Int64
 	seenMu                                  sync.Mutex
 	seen                                    map[uint64]struct{}
 }
@@ -341,7 +380,8 @@ func newTrafficLeg(r *vlib.Run, f *findings, finder *assets.LocationFinder, chai
 		deduped: r.Counter("traffic_lists_with_removed_values"), geo: r.Counter("traffic_lists_with_geodata"),
 		reordered: r.Counter("traffic_lists_only_reordered"), byRule: r.Counter("traffic_decisions_by_a_rule"),
 		negMergeable: r.Counter("traffic_lists_with_adjacent_negated_same_function_same_outbound"),
-		dupSkipped:   r.Counter("traffic_duplicate_lists_skipped"), seen: map[uint64]struct{}{}}
+		dupSkipped:   r.Counter("traffic_duplicate_lists_skipped"), seen: map[uint64]struct{}{},
+		emptyExp: r.Counter("traffic_lists_with_empty_expansion"), rejected: r.Counter("traffic_lists_rejected_unconditional_after_expansion")}
 	t.id2name = make([]string, int(consts.OutboundUserDefinedMin)+len(vroute.Groups))
 	t.id2name[consts.OutboundDirect], t.id2name[consts.OutboundBlock] = "direct", "block"
 	for i, g := range vroute.Groups {
@@ -449,7 +489,11 @@ type compiledTraffic struct {
 	ref       *vroute.Reference
 	opt, base *control.VerifRouting
 	aliasText string // the written rules after alias rewriting only (geodata lists: of the expanded list)
+	// hasEmpty: some condition has an empty value list after expansion; unconditional: some rule then fires always
+	hasEmpty, unconditional bool
 }
+
+const rejectedUnconditional = "rejected: unconditional rule after expansion"
 
 func fallbackFn(kind, fb string) *config_parser.Function {
 	p := asts.parsedFallback(kind, fb)
@@ -464,7 +508,7 @@ func fallbackFn(kind, fb string) *config_parser.Function {
 // A harness-side failure is returned as herr (exit 2).
 func (t *trafficLeg) compileTraffic(prog *vroute.Program, viaText bool) (c *compiledTraffic, buildErr string, herr error) {
 	c = &compiledTraffic{prog: prog}
-	c.exp, c.expanded = expandTraffic(prog)
+	c.exp, c.expanded, c.hasEmpty, c.unconditional = expandTrafficX(prog)
 	c.text = prog.ConfigText()
 	wTexts, eTexts := ruleTexts(prog.Rules), ruleTexts(c.exp.Rules)
 	var err error
@@ -490,6 +534,11 @@ func (t *trafficLeg) compileTraffic(prog *vroute.Program, viaText bool) (c *comp
 		return c, "leg=optimised build panic at " + vlib.PanicSite(msg), nil
 	}
 	if err != nil {
+		if c.unconditional {
+			// a rule that fires for every packet after expansion (all its conditions are negations of empty
+			// lists) may be refused with an explicit configuration error: then no program is compiled
+			return c, rejectedUnconditional, nil
+		}
 		return c, "leg=optimised build error: " + err.Error(), nil
 	}
 	// the written rules after alias rewriting only (classification of "did the optimizers change the list";
@@ -554,6 +603,13 @@ func (t *trafficLeg) one(spaceOrd int, idx int, prog *vroute.Program, opts vrout
 		os.Exit(2)
 	}
 	t.lists.Add(1)
+	if c != nil && c.hasEmpty {
+		t.emptyExp.Add(1)
+	}
+	if berr == rejectedUnconditional {
+		t.rejected.Add(1)
+		return
+	}
 	if berr != "" {
 		cls := "build-error"
 		if strings.Contains(berr, "panic") {
@@ -619,7 +675,7 @@ func (t *trafficLeg) one(spaceOrd int, idx int, prog *vroute.Program, opts vrout
 				gs = "error: " + rerr.Error()
 			}
 			diag := "other"
-			if leg == "optimised" && rerr == nil {
+			if leg == "optimised" && rerr == nil && len(c.opt.OptRules) < len(prog.Rules) { // only when rules really were fused
 				if m, ch := mergedNegatedTraffic(c.exp); ch {
 					if mref, e := vroute.NewReferenceFromText(m.ConfigText()); e == nil {
 						if d, _ := mref.Decide(p); d == got {
